@@ -1499,7 +1499,7 @@ func main() {
 		"of every recorder interleaved with RTP (also through stale handles) and RTCP, Get of 3 streams and a never-bound SSRC after every event; " +
 		"non-trivial = at least 2 traffic events; " +
 		"c19conc: one recorder (hook, or behind the public interceptor with the stream bound both ways) whose Queue* entry points are called " +
-		"from 2-5 goroutines at once (each 250-5000 calls: RTP sent / received, incoming / outgoing compounds of 6-24 packets, mixed scripts; the " +
+		"from 2-5 goroutines at once (each 150-8000 calls, made in 4-16 slices with the goroutines re-aligned between slices: RTP sent / received, incoming / outgoing compounds of 6-18 packets, mixed scripts; the " +
 		"same entry point from two goroutines), a further goroutine reading the statistics meanwhile; the read after the join must equal the " +
 		"recount of everything queued and no read may show a smaller counter than an earlier one; non-trivial = at least 2 goroutines that queue"
 
@@ -1615,7 +1615,7 @@ func main() {
 		lc, buckets := genLife(r)
 		lifeSet.Cases = append(lifeSet.Cases, runLife(lc).toCase(buckets))
 	}
-	nconc := o.Scale(36, 360)
+	nconc := o.Scale(30, 360)
 	concCalls := 0
 	for i := 0; i < nconc; i++ {
 		cc, buckets := genConc(r, i)
